@@ -120,7 +120,7 @@ theorem scheduleLoop_frame (hs : List Header) (f : Nat) (s : State) :
   induction hs generalizing f s with
   | nil => simp [scheduleLoop]
   | cons h t ih =>
-    simp only [scheduleLoop]
+    simp only [scheduleLoop, schedOneFast_eq]
     split
     · simp
     · split
@@ -137,7 +137,7 @@ theorem inv_scheduleLoop {s : State} (hi : Inv s) (hs : List Header) (f : Nat)
   induction hs generalizing f s with
   | nil => exact hi
   | cons h t ih =>
-    simp only [scheduleLoop]
+    simp only [scheduleLoop, schedOneFast_eq]
     split
     · exact hi
     · rename_i hc1
